@@ -14,14 +14,11 @@ Abs(x) == IF x < 0 THEN -x ELSE x
 Min2(a, b) == IF a <= b THEN a ELSE b
 Max2(a, b) == IF a >= b THEN a ELSE b
 
-RECURSIVE SeqProd(_)
-SeqProd(s) == IF Len(s) = 0 THEN 1 ELSE Head(s) * SeqProd(Tail(s))
-
-RECURSIVE SeqMax(_)
-SeqMax(s) == IF Len(s) = 0 THEN 0 ELSE Max2(Head(s), SeqMax(Tail(s)))   \* 0 for the empty sequence
-
-RECURSIVE Concat(_)
-Concat(ss) == IF Len(ss) = 0 THEN <<>> ELSE Head(ss) \o Concat(Tail(ss))
+(* folds are taken from SequencesExt (iterative Java overrides in TLC): block     *)
+(* lists get long (block size 1) and TLC's recursion depth is limited.              *)
+SeqProd(s) == FoldLeft(LAMBDA acc, x : acc * x, 1, s)
+SeqMax(s)  == FoldLeft(LAMBDA acc, x : Max2(acc, x), 0, s)     \* 0 for the empty sequence
+Concat(ss) == FoldLeft(LAMBDA acc, x : acc \o x, <<>>, ss)
 
 (* merge_small_dims(shape_to_merge, max_dim)                                   *)
 (*   all-ones (non-empty) -> [1];  otherwise greedy left-to-right products     *)
